@@ -157,10 +157,10 @@ def formula_direct(adj_i, i):
     return '=' + '+'.join(terms)
 
 
-def judge(key, tags, inputs, adj, entry, model, ctx):
+def judge(key, tags, inputs, adj, entry, model, ctx, ev=None):
     on_cycle, reaches, value = analyse(adj, entry)
     t0 = time.time()
-    got, exc = cycle_obs(lib.Evaluator(model).evaluate, cell(entry))
+    got, exc = cycle_obs((ev or lib.Evaluator(model)).evaluate, cell(entry))
     dt = time.time() - t0
     lib.clear_caches()
     nontriv = bool(adj[entry])
@@ -194,6 +194,42 @@ def judge(key, tags, inputs, adj, entry, model, ctx):
     ctx.count('transitions')
 
 
+def entry_orders(n):
+    """All orders of the entry cells for n <= 3, ascending / descending /
+    two rotations above."""
+    if n <= 3:
+        return list(itertools.permutations(range(n)))
+    base = list(range(n))
+    return [tuple(base), tuple(reversed(base)),
+            tuple(base[1:] + base[:1]), tuple(base[2:] + base[:2])]
+
+
+def shared_evaluator_pass(key0, tags, inputs, adj, n, model, ctx):
+    """ONE evaluator (and one model) serves several evaluate() calls in a
+    row: an earlier cycle report or failure must not leak into a later
+    evaluation (acyclic sharing is never flagged, cycles stay reported).
+    Only graphs that have both a cyclic and another entry are interesting;
+    purely acyclic graphs are C05's business."""
+    verdicts = [analyse(adj, e) for e in range(n)]
+    if not any(v[1] for v in verdicts) or n < 2:
+        return
+    for order in entry_orders(n):
+        fresh = lib.compile_dict({cell(i): formula_direct(adj[i], i)
+                                  for i in range(n)}) \
+            if tags == ['via:direct'] else None
+        m = fresh if fresh is not None else model
+        ev = lib.Evaluator(m)
+        okey = ''.join(map(str, order))
+        for pos, entry in enumerate(order):
+            if pos == 0:
+                # already judged with a fresh evaluator; just execute it
+                cycle_obs(ev.evaluate, cell(entry))
+                continue
+            judge('%s/shared=%s/pos=%d/entry=%d' % (key0, okey, pos, entry),
+                  tags + ['evaluator:shared'],
+                  dict(inputs, entry=entry), adj, entry, m, ctx, ev)
+
+
 def adj_from_code(code, n, base):
     """code: integer whose base-`base` digits are the n*n multiplicities."""
     adj = [dict() for _ in range(n)]
@@ -220,6 +256,7 @@ def run_graph(kind, n, base, code, ctx):
     for entry in range(n):
         judge('%s/entry=%d' % (key0, entry), ['via:direct'],
               dict(inputs, entry=entry), adj, entry, model, ctx)
+    shared_evaluator_pass(key0, ['via:direct'], inputs, adj, n, model, ctx)
 
 
 RANGE_OPTS_CACHE = {}
@@ -257,6 +294,7 @@ def run_rangegraph(n, choice, ctx):
     for entry in range(n):
         judge('%s/entry=%d' % (key0, entry), ['via:range'],
               dict(inputs, entry=entry), adj, entry, model, ctx)
+    shared_evaluator_pass(key0, ['via:range'], inputs, adj, n, model, ctx)
 
 
 def chain_model(d, ending, back=None):
@@ -287,8 +325,28 @@ def run_chain(ending, dmax, ctx):
             inputs = {'kind': 'chain', 'ending': ending, 'd': d, 'back': back}
             model = lib.compile_dict(cells)
             t0 = time.time()
-            got, exc = cycle_obs(lib.Evaluator(model).evaluate, 'Sheet1!C1')
+            ev = lib.Evaluator(model)
+            got, exc = cycle_obs(ev.evaluate, 'Sheet1!C1')
             dt = time.time() - t0
+            # the same evaluator again, from the head and from the middle: an
+            # earlier failure must not turn into (or hide) a cycle report
+            for again in ('Sheet1!C1', 'Sheet1!C%d' % max(1, d // 2)):
+                got2, _ = cycle_obs(ev.evaluate, again)
+                if again == 'Sheet1!C1':
+                    want2 = got
+                elif ending == 'value':
+                    want2 = lib.norm(7 + d - max(1, d // 2))
+                elif ending == 'back-edge':
+                    want2 = None          # position relative to the cycle
+                else:
+                    want2 = got
+                if want2 is not None:
+                    ctx.check('C06/chain/%s/d=%d%s/again=%s' % (
+                        ending, d, '' if back is None else '/back=%d' % back,
+                        again.split('!')[1]), got2, want2,
+                        ['chain', 'ending:' + ending, 'evaluator:shared'],
+                        {'kind': 'chain', 'ending': ending, 'd': d,
+                         'back': back})
             lib.clear_caches()
             mlen = len(str(exc)) if exc is not None else 0
             if d == 5 and back in (None, 1):
